@@ -349,6 +349,15 @@ let rawblock_line line =
   | M.RErr _ -> "err"
   | M.RPanic _ -> "panic"
 
+(* blocks <body-hex> ... : the compressed blocks of one frame in order; each is taken apart by the decoder model
+   (carrying the Huffman table along) and written again by the encoder models; per block: side conditions, identical *)
+let blocks_line line =
+  let bodies = List.map unhex (List.filter (fun x -> x <> "") (split_on ' ' line)) in
+  match M.rewrite_blocks M.huf_new bodies with
+  | M.ROk rs -> "ok " ^ String.concat " " (List.map (fun (h, e) -> (if h then "1" else "0") ^ (if e then "1" else "0")) rs)
+  | M.RErr _ -> "err"
+  | M.RPanic _ -> "panic"
+
 (* fastblock <window> <data-hex> <body-hex> : match finder model on the data, compress_block's split, the block model;
    distributions taken from the real body *)
 let fastblock_line line =
@@ -402,6 +411,7 @@ let () =
     | "seqenc" -> seqenc_line
     | "seqsection" -> seqsection_line
     | "rawblock" -> rawblock_line
+    | "blocks" -> blocks_line
     | "fastblock" -> fastblock_line
     | "hufstream" -> hufstream_line
     | "hufdec" -> hufdec_line
